@@ -207,6 +207,9 @@ def run(ctx):
     for rel, cname, fname, node in hits:
         ctx.ob("C07.R4", "%s:%s.%s" % (rel, cname, fname), "the encoder does not name the physical register `%s`" % node.id, False, construct="fixed-register:%s.%s:%s" % (cname, fname, node.id), node=node)
     ctx.ob("C07.R4", "ppci/arch/*", "no encoder names a physical register", not hits, construct="no-fixed-register")
+    ctx.rule("C07.R6", "pseudo instructions: an operand declared write-only is not read by the expansion before the expansion wrote it (every path through render())", floor=2)
+    nexp = sum(pseudo_expansions(ctx, dump, arch_, "C07.R6") for arch_ in archs)
+    ctx.extra["pseudo_expansion_reads"] = nexp
     ctx.rule("C07.R5", "x86-64: the destination of a read-modify-write instruction (shift, add, neg, ...) in a pattern is never one of the pattern's input registers", floor=30)
     ctx.extra["x86_rmw_sites"] = x86_destination_not_an_input(ctx, dump, "C07.R5")
     ctx.rule("C07.R3", "an undeclared (implicit) fixed-register operand is loaded immediately before the instruction that reads it", floor=20)
@@ -287,4 +290,64 @@ def x86_destination_not_an_input(ctx, dump, rid):
             n += 1
             ctx.ob(rid, site, "`%s` overwrites its first operand: `%s` is a register the pattern owns, not one of its inputs (%s)" % (sorted(ms & X86_RMW)[0], dst.id, ", ".join(sorted(children)) or "-"),
                    dst.id not in children, construct="rmw-destination:%s:%s" % (cname, dst.id), node=c, detail=" ".join(norm(call).split())[:70])
+    return n
+
+
+def pseudo_expansions(ctx, dump, arch, rid):
+    """A pseudo instruction declares read/write flags for its own operands, but what reaches the machine is the sequence
+    its render() yields.  An operand declared write-only (not read) must not be READ by the expansion before the
+    expansion has written it - on every path through render()."""
+    from ..cfg import CFG
+    from ..core import walk_no_nested
+    project = ctx.project
+    model = isamod.IsaModel(dump, arch)
+    a = dump["archs"][arch]
+    n = 0
+    files = sorted({("ppci/" + i["file"]) for i in a["instructions"] if i.get("file")})
+    for rel in files:
+        mod = project.modules.get(rel)
+        if mod is None:
+            continue
+        for cls in [c for c in mod.tree.body if isinstance(c, ast.ClassDef)]:
+            rn = [f for f in cls.body if isinstance(f, ast.FunctionDef) and f.name == "render"]
+            if not rn:
+                continue
+            ops = {}
+            for st in cls.body:
+                if isinstance(st, ast.Assign) and isinstance(st.value, ast.Call) and norm(st.value.func) == "Operand":
+                    kw = {k.arg: norm(k.value) for k in st.value.keywords}
+                    ops[norm(st.targets[0])] = (kw.get("read") == "True", kw.get("write") == "True")
+            wo = [o for o, (r, w) in ops.items() if w and not r]
+            if not wo:
+                continue
+            fn = rn[0]
+            cfg = CFG(fn)
+            ys = []
+            for st in walk_no_nested(fn):
+                if isinstance(st, ast.Expr) and isinstance(st.value, ast.Yield) and isinstance(st.value.value, ast.Call):
+                    call = st.value.value
+                    decl = model.resolve(mod, norm(call.func).split(".")[-1])
+                    if decl is None:
+                        continue
+                    formal = model.formal(decl)
+                    reads, writes = set(), set()
+                    for opname, arg in zip(formal, call.args):
+                        o = model.operand(decl, opname)
+                        if o is None or not o["is_register"]:
+                            continue
+                        t = norm(arg)
+                        if t.startswith("self."):
+                            if o["read"]:
+                                reads.add(t[5:])
+                            if o["write"]:
+                                writes.add(t[5:])
+                    ys.append((st, reads, writes))
+            for o in wo:
+                readers = [(st, r, w) for st, r, w in ys if o in r]
+                for st, r, w in readers:
+                    n += 1
+                    writers = [s2 for s2, r2, w2 in ys if o in w2 and s2 is not st]
+                    ok = bool(writers) and cfg.must_pass(st, lambda x: any(x is s2 for s2 in writers))
+                    ctx.ob(rid, "%s:%s.render" % (rel, cls.name), "`%s` is declared write-only on %s: the expansion reads it (%s) only after an earlier yielded instruction wrote it, on every path" % (o, cls.name, " ".join(norm(st.value.value).split())[:50]),
+                           ok, construct="expansion-reads-after-write:%s.%s" % (cls.name, o), node=st)
     return n
